@@ -18,11 +18,17 @@
     server    lib:<versions>   kmip-go BatchExecutor after SetSupportedProtocolVersions(versions…)
               lib:-  (called without argument)   lib:!  (never called)
               msg:<roundtrip>  any other server: the result of the discovery round trip
-    answer    ok M.m req=M.m clone=M.m disc=<d>  |  err disc=<d>  |  err item … disc=<d>  |  panic
-              req / clone: header version of a request sent afterwards by the client / by its clone;
+    answer    ok M.m later=<l> disc=<d>  |  err disc=<d>  |  err item … disc=<d>  |  panic
+              l = the requests put on the wire by the fixed program `laterProgram` run after Dial, each as
+                  <client index>:<header version>:<header batch count>, comma separated;
               d = - (no discovery exchange) or  <header version>/<versions listed in the request> ans=<a>
               a = the version list of the DiscoverVersions response payload of the first item of the
                   answer as the client received it (none: no such payload)
+
+  nego.server <calls> <hdr> <req>
+    calls     !  (SetSupportedProtocolVersions never called)  |  call;call;…  (as above; each call REPLACES the set)
+    hdr       header version of the request        req   the versions the DiscoverVersions request lists (- = none)
+    answer    the response as decoded from the wire, in the roundtrip encoding
 
   resp.interpret <api> <arg> <roundtrip>
     api = request | exec      arg = requested operation         answer  ok <payload> | err | err item … | panic
@@ -201,6 +207,18 @@ def parseServer (s : String) : Option ServerBehaviour :=
     (parseRoundTrip (s.drop 4).toString).map .scripted
   else none
 
+/-- the fixed program the harness runs after a successful Dial (see go/cmd/harness/client.go `negoLater`):
+    a single request, a batch of three with OnBatchErr(Stop), a lost connection and a request (reconnect),
+    a clone and its request, Close of the parent and a request on it (nothing is sent), a two-payload batch on
+    the clone, a clone of the clone with both connections lost, a clone of the CLOSED parent. -/
+def laterProgram : List Step :=
+  [.request 0 1 [], .request 0 3 [2], .connLost 0, .request 0 1 [], .clone 0, .request 1 1 [], .close 0,
+   .request 0 1 [], .request 1 2 [], .clone 1, .connLost 1, .connLost 2, .request 2 1 [], .clone 0, .request 3 1 []]
+
+def renderLater (outs : List (Nat × ReqHeader)) : String :=
+  if outs.isEmpty then "-"
+  else ",".intercalate (outs.map fun o => toString o.1 ++ ":" ++ renderVer o.2.version ++ ":" ++ toString o.2.batchCount)
+
 def negoAdopt (enf calls srv : String) : String :=
   let enforce : Option (Option Ver) := if enf = "-" then some none else (parseVer enf).map some
   match enforce, parseCalls calls, parseServer srv with
@@ -212,16 +230,36 @@ def negoAdopt (enf calls srv : String) : String :=
           (match respond sb discoverHeader (clientList cfg) with
            | .msg _ (bi :: _) => if bi.payload = some (.resp opDiscover) then renderVers bi.vers else "none"
            | _ => "none")
-    match dial stdTables cfg sb with
-    | .ok c =>
-      let hs := run c [.batch 1 [], .clone, .batch 1 []]
-      match hs with
-      | [h1, h2] =>
-        "ok " ++ renderVer c.version ++ " req=" ++ renderVer h1.version ++ " clone=" ++ renderVer h2.version ++
-          " disc=" ++ disc
-      | _ => "bad-model"
+    -- the EnforceVersion option owns a version variable; the client copies the pointer
+    let (s0, ptr) : Store × Option Nat := match enforce with
+      | some v => let (s, p) := enforceOption Store.init v; (s, some p)
+      | none => (Store.init, none)
+    match dialM stdTables s0 calls ptr sb with
+    | .ok (s, c) =>
+      "ok " ++ renderVer (s.val c.ver) ++ " later=" ++ renderLater (runM { store := s, clients := [c] } laterProgram) ++
+        " disc=" ++ disc
     | .err e => renderErr e ++ " disc=" ++ disc
     | .panic => "panic"
+  | _, _, _ => "bad-op"
+
+def renderItem (bi : Item) : String :=
+  toString bi.op ++ "," ++ toString bi.status ++ "," ++ toString bi.reason ++ "," ++ renderMsg bi.msg ++ "," ++
+    renderPayload bi.payload ++ (if bi.vers.isEmpty then "" else "," ++ renderVers bi.vers)
+
+def renderRoundTrip : RoundTrip → String
+  | .fail => "fail"
+  | .msg h items =>
+    toString h ++ ":" ++ (if items.isEmpty then "-" else "|".intercalate (items.map renderItem))
+
+/-- `nego.server <calls> <hdr> <req>`: a BatchExecutor after the successive SetSupportedProtocolVersions
+    calls (`!`: never called; call = versions or `_` for no argument) answering a one-item DiscoverVersions
+    request with header version `hdr` listing `req`, as the client decodes the answer from the wire. -/
+def negoServer (calls hdr req : String) : String :=
+  let cs : Option (List (List Ver)) := if calls = "!" then some [] else parseCalls calls
+  match cs, parseVer hdr, parseVers req with
+  | some cs, some h, some r =>
+    -- each call REPLACES the set: only the last one counts
+    renderRoundTrip (libraryRespond (serverSet (cs.getLast?.getD [])) h r)
   | _, _, _ => "bad-op"
 
 def parseOps (s : String) : Option (List Nat) :=
@@ -363,6 +401,10 @@ def handleClient (cmd arg : String) : Option String :=
   | "nego.adopt" => some <|
     match arg.splitOn " " with
     | [enf, calls, srv] => negoAdopt enf calls srv
+    | _ => "bad-op"
+  | "nego.server" => some <|
+    match arg.splitOn " " with
+    | [calls, hdr, req] => negoServer calls hdr req
     | _ => "bad-op"
   | "resp.interpret" => some <|
     match arg.splitOn " " with
